@@ -548,7 +548,7 @@ Definition bview_rf (nil : bool) (r : bres (Z * err) (bstate * list rresp)) : pc
   end.
 
 (* PrintCtx.ReadFrom  (BOk results state | BRange state | BPanic v state) *)
-Definition buf_read_from_ref (s_buf : gslice) (s_off s_lastRead : Z) (f_isnil : gslice -> bool) (f_growSlice : gslice -> Z -> bres gslice unit) (r : unit) (script_ : list rresp) : bres (Z * err) (bstate * list rresp) :=
+Definition buf_read_from_ref (s_buf : gslice) (s_off s_lastRead : Z) (f_isnil : gslice -> bool) (f_growSlice : gslice -> Z -> bres gslice unit) (f_errors_is : err -> err -> bool) (r : unit) (script_ : list rresp) : bres (Z * err) (bstate * list rresp) :=
   let n := 0 in
   let err := ENil in
   let s_lastRead := 0 in
